@@ -108,6 +108,10 @@ func renderStream(r *Run) {
 	for _, t := range harvestTemplates() {
 		emit(engineCfg{}, "", 0, t, map[string]*V{}, "harvest")
 	}
+	// times: {{ t }}, the date filter on times and on date strings, times inside containers (stream_filter_date.go)
+	for _, tc := range dateTemplateFamily() {
+		emit(engineCfg{}, "", 1, tc.src, tc.env, "date-family")
+	}
 	// small-scope exhaustion: EVERY sequence of at most 3 (thorough: 4) pieces of a 31-piece alphabet covering each
 	// standard tag, both hyphen positions, text with edge white space, raw/comment/capture and the loop controls -
 	// bare, as the body of a loop, and as the body of a conditional. Most short sequences are ill-nested (error kind
